@@ -31,11 +31,17 @@ def check(run, only=None):
             for env in ("twig", "core"):
                 cases.append({"id": "C18-%s-%d" % (env, i), "k": "conc", "n": n, "rounds": rounds, "env": env,
                               "seed": run.seed * 31 + i, "dl": 120000, "fresh": True})
+        # the same with the library's FilesystemLoader (templates in a directory): loading is part of a call
+        for i, (n, rounds) in enumerate([(16, 40), (32, 20)] if not thorough else [(16, 200)] * 4 + [(64, 60)] * 2):
+            for env in ("twig", "core"):
+                cases.append({"id": "C18-fs-%s-%d" % (env, i), "k": "conc", "n": n, "rounds": rounds, "env": env, "loader": "fs",
+                              "seed": run.seed * 31 + 7 + i, "dl": 120000, "fresh": True})
         # the schedule "every caller is inside Execute at once" (all pc = "print" in C18.tla), forced with a blocking user
         # function as scheduler gate: 64 callers x 3 nested includes
         for i, (n, rounds) in enumerate([(64, 9), (17, 18)] if not thorough else [(64, 45), (128, 18), (33, 36)]):
             for env in ("twig", "core"):
                 cases.append({"id": "C18-gate-%s-%d" % (env, i), "k": "conc", "n": n, "rounds": rounds, "env": env, "gate": True,
+                              "loader": "fs" if i % 2 else "",
                               "seed": run.seed * 31 + i, "dl": 120000, "fresh": True})
     obs, hooks = common.run_pool(cases, deadline_ms=120000, workers=4, race=True)
     run.hooks = hooks
